@@ -91,6 +91,18 @@ def litmus_shapes():
     add("W+RWC", [[st("x", 1), st("z", 1, "rel")], [ld("z", "acq"), fence("sc"), ld("y")],
                   [st("y", 1), fence("sc"), ld("x")]])
     add("fence-mo", [[st("x", 1), fence("sc"), ld("y")], [st("y", 1), fence("sc"), st("x", 2)]], ["x"])
+    # coherence through happens-before chains (the overwritten / overwriting store is known only via another thread)
+    out.append(P("CoRW-hb", SJ(3) + JJ(3) + [ld("x")], [st("x", 1)], [ld("x"), st("y", 1, "rel")], [ld("y", "acq"), st("x", 2), ld("x")], tags=["litmus"]))
+    out.append(P("CoWR-hb", SJ(3) + JJ(3) + [ld("x")], [st("x", 1), st("y", 1, "rel")], [ld("y", "acq"), ld("x")], [st("x", 2)], tags=["litmus"]))
+    out.append(P("CoWW-hb", SJ(2) + JJ(2) + [ld("x")], [st("x", 1), st("y", 1, "rel")], [ld("y", "acq"), st("x", 2)], tags=["litmus"]))
+    out.append(P("CoRR-hb", SJ(3) + JJ(3), [st("x", 1), st("x", 2)], [ld("x"), st("y", 1, "rel")], [ld("y", "acq"), ld("x")], tags=["litmus"]))
+    out.append(P("CoRW-hb-fence", SJ(3) + JJ(3) + [ld("x")], [st("x", 1)], [ld("x"), fence("rel"), st("y", 1)], [ld("y"), fence("acq"), st("x", 2), ld("x")], tags=["litmus"]))
+    # one fence used as both the acquire side and the release side of a two-hop hand-over
+    for f in ("acqrel", "sc"):
+        out.append(P(f"2hop-fence[{f}]", SJ(3) + JJ(3), [st("d", 1), st("x", 1, "rel")], [ld("x"), fence(f), st("y", 1)],
+                     [ld("y", "acq"), ld("d")], tags=["litmus"]))
+    out.append(P("2hop-fence-relonly", SJ(3) + JJ(3), [st("d", 1), st("x", 1, "rel")], [ld("x"), fence("rel"), st("y", 1)],
+                 [ld("y", "acq"), ld("d")], tags=["litmus"]))
     add("F16-rmw-before-executed-store", [[st("z", 1), st("y", 1), ld("z")], [ld("y", "acq"), swap("z", 2, "rel")]], ["z"])
     return out
 
@@ -559,6 +571,11 @@ def race_idioms():
         [await_("y", "acq"), rd("c")]))
     A(P("C04-F2-shape-racy", sj(3) + jj(3), [wr("c"), st("x", 1, "rel")], [await_("x", "rlx"), st("z", 1, "rel")],
         [await_("z", "acq"), fence("acq"), rd("c")]))
+    for f in ("acqrel", "sc"):
+        A(P(f"2hop-single-fence-ok[{f}]", sj(3) + jj(3), [wr("c"), st("x", 1, "rel")], [await_("x", "rlx"), fence(f), st("y", 1)],
+            [await_("y", "acq"), rd("c")]))
+    A(P("2hop-single-relfence-racy", sj(3) + jj(3), [wr("c"), st("x", 1, "rel")], [await_("x", "rlx"), fence("rel"), st("y", 1)],
+        [await_("y", "acq"), rd("c")]))
     A(P("2hop-fence-ok", sj(3) + jj(3), [wr("c"), st("x", 1, "rel")], [await_("x", "rlx"), fence("acq"), st("z", 1, "rel")],
         [await_("z", "acq"), rd("c")]))
     # channel
